@@ -41,6 +41,11 @@ impl ToPy for TrueName {
 impl ToPy for StringName {
     fn to_py(&self, imp: &mut Imports) -> Core {
         match self.name.as_str() {
+            clss::UNION | clss::CALLABLE if self.generics.is_empty() => {
+                // Bare name without arguments: Callable, not Callable[,]
+                imp.add_from_import("typing", self.name.as_str());
+                core_type(self.name.as_str(), &[], imp)
+            }
             clss::UNION => self
                 .generics
                 .iter()
